@@ -10,6 +10,7 @@ mod stepcheck;
 mod threadcheck;
 mod histcheck;
 mod hugecheck;
+mod largecheck;
 mod itercheck;
 mod misccheck;
 mod ppcheck;
@@ -151,6 +152,10 @@ fn main() {
             let f = hugecheck::huge(&c);
             c.finish(f);
         }
+        "large" => {
+            let f = largecheck::large(&c);
+            c.finish(f);
+        }
         "gen-threads" => {
             threadcheck::gen_threads(&c);
         }
@@ -171,6 +176,7 @@ fn main() {
                 "byte-iter" => itercheck::replay(&c2, &v),
                 "eq" => misccheck::eq_replay(&c2, &v),
                 "huge" => hugecheck::huge(&c2).violations.into_iter().next(),
+                "large" => largecheck::replay(&c2, &v),
                 "alloc" => alloccheck::replay(&c2, &v),
                 "steps" => stepcheck::replay(&c2, &v),
                 "threads" => threadcheck::replay(&c2, &v),
